@@ -324,6 +324,8 @@ def r20_3_who_may_bypass(ctx: Ctx) -> None:
                     allowed[recv] = allowed["commutator.second"]
                 if isinstance(val, ast.Attribute) and val.attr == "operation" and recv == recv_root and src(val.value).endswith(".skip_to"):
                     allowed[recv] = "the operation of an existing node (read as an attribute instead of captured by a pattern)"
+            if recv.endswith(".skip_to.operation"):
+                allowed[recv] = "the operation of an existing node (read as an attribute chain)"
             # a pattern capture of the sanctioned parameter counts as that parameter
             root = recv
             if recv not in allowed:
